@@ -9,14 +9,14 @@ are drawn mostly inside the window, around its edges, and under overlapping sibl
 exhaustive: every sequence of <= 4 operations from a 17-letter alphabet (focus / hide / show / restack / cursor / close /
 flush) on a fixed two-level tree with an overlapping sibling, each closed by a flush.
 
-Histories come in three blocks, in this order, so that the check's per-file budget of examined failures is not used up
-by the known findings (which are frequent: a quarter of the unrestricted histories move the focus between a window
-and its ancestor):
-  discipline 2 (40 %): focus only moves inside an antichain of windows (never between a window and its ancestor), the
+Histories come in three blocks, in this order.  (The blocks were introduced while the library still had the four C15
+defects, so that the check's per-file budget of examined failures was not used up by those known findings; now that they
+are fixed the unrestricted block is the largest, and the disciplined ones remain as a different input distribution.)
+  discipline 2 (15 %): focus only moves inside an antichain of windows (never between a window and its ancestor), the
       root is never hidden, no window asking for child notifications has focus candidates in two branches, and every
       window lies inside its parent and is not empty  -> none of the four known findings can trigger; any alarm is new;
-  discipline 1 (30 %): the same focus discipline, geometry unrestricted (windows outside their parents, empty windows);
-  discipline 0 (30 %): no restriction at all (this is where the known findings are met again and again).
+  discipline 1 (15 %): the same focus discipline, geometry unrestricted (windows outside their parents, empty windows);
+  discipline 0 (70 %): no restriction at all.
 
 The generator keeps within the engine's scope guards (see harness/focus.c): no operation on closed windows or below
 them, unref only of windows without live children.
@@ -266,7 +266,7 @@ if a.tier == "exhaustive":
 else:
     H = 1800 if a.tier == "quick" else 12000
     for k in range(H):
-        random_history(2 if k < 0.4 * H else 1 if k < 0.7 * H else 0)
+        random_history(2 if k < 0.15 * H else 1 if k < 0.3 * H else 0)
     info = {"histories": H}
 
 open(a.out, "w").write("\n".join(lines) + "\n")
